@@ -247,6 +247,8 @@ fn workload(m: &mut Mon, bits: usize) {
         m.case("sum", bits, vec![au(&[]), au(&[])]);
         return;
     }
+    m.case("sum", bits, vec![]); // the empty sum is zero
+    m.case("sum", bits, vec![au(&gen::max(bits))]);
     // Carry chains: all-ones limbs in the middle, carry injected at the bottom.
     for lo in 0..n {
         for hi in lo..n {
